@@ -184,7 +184,16 @@ def _is_listing(src):
     a = src[2][0] if src[2] else None
     if a is None:
         return False
-    return any(x[0] == "call" and callee_name(x) in ("list_raw_items", "list_objects") for x in walk(a))
+    def listing_call(x):
+        c = x[4]
+        if c is None:
+            return False
+        if c.trait == "adapter::Adapter" and c.name == "list_objects":
+            return True
+        # pass-through wrapper around the adapter listing (DataStorage): returns Result<Vec<String>>
+        return c.impl_self == "datastorage::DataStorage" and "Vec<std::string::String>" in (x[4].j.get("ret", "") or "") or \
+            (c.impl_self == "datastorage::DataStorage" and c.name.startswith("list"))
+    return any(x[0] == "call" and listing_call(x) for x in walk(a))
 
 
 def loop_body_blocks(body, next_block):
